@@ -777,7 +777,12 @@ def random_history(ctx, rng, label, max_ops, big=False):
             h.add(fd(path, kind, two=two, w=2 if two else 1, unit=unit, refs=refs))
             ctx.count("op:add_" + kind)
         elif r < 0.72:
-            cand = [p for p in sch if p not in ("rid", "key")]
+            # a nested collection is never emptied (Collection.__len__ of a collection whose first field is an
+            # empty collection is 0 - see design/C09.md; collections themselves are not part of the model)
+            def last_of_collection(p):
+                pre = p.rpartition(".")[0]
+                return pre and sum(1 for q in sch if q.startswith(pre + ".")) == 1
+            cand = [p for p in sch if p not in ("rid", "key") and not last_of_collection(p)]
             h.delete(rng.choice(cand) if cand and rng.random() < 0.9 else "nonexistent")
             ctx.count("op:del")
         elif r < 0.80:
@@ -865,8 +870,40 @@ def make_history(spec):
         return _make_history(spec, counts)
 
 
+CORPUS = ["subset_index", "unstable_sort", "nested_pad", "fill_unattached", "empty_self_nested", "empty_other_sharing"]
+
+
+def corpus_history(name):
+    """Minimal witnesses of the defects found while building (they run first on every run)."""
+    rk = [fd("rid", "float"), fd("key", "float", keymod=3)]
+    h = History(None, "corpus:" + name)
+    if name == "subset_index":
+        h.start(rk + [fd("tx", "text")], 5)
+        h.subset_idx([3, 0, 4])
+    elif name == "unstable_sort":
+        h.start(rk + [fd("tx", "text")], 4)
+        h.merge([build_real(rk + [fd("tx", "text")], 4, 4)], "key")      # keys 0,1,2,0,1,2,0,1
+    elif name == "nested_pad":
+        h.start(rk + [fd("grp.g1", "float")], 1)
+        h.extend(build_real(rk + [fd("grp.g1", "float"), fd("grp.gt", "text")], 3, 100))
+    elif name == "fill_unattached":
+        h.start(rk + [fd("site", "position", refs={"other": ("anon", "p0", "position")})], 2)
+        h.extend(build_real(rk, 3, 100))
+    elif name == "empty_self_nested":
+        h.start(rk + [fd("grp.g1", "float"), fd("grp.gt", "text")], 0)
+        h.extend(build_real(rk + [fd("grp.g1", "float")], 1, 100))
+    elif name == "empty_other_sharing":
+        h.start(rk + [fd("sat", "position"), fd("site", "position", refs={"other": ("field", "sat")})], 2)
+        h.extend(build_real(rk + [fd("site", "position", refs={"other": ("anon", "p0", "position")})], 0, 100))
+    return h
+
+
 def _make_history(spec, counts):
     import random as _r
+    if spec[0] == "corpus":
+        h = corpus_history(spec[1])
+        counts["corpus"] = 1
+        return dict(label=h.label, steps=h.steps, log=h.log, summaries=h.summaries, counts=counts)
 
     class C:
         def count(self, k, n=1):
@@ -899,7 +936,7 @@ def run(ctx):
     words = [""]
     for _ in range(L):
         words = [w + c for w in words for c in LETTERS]
-    specs = [("word", w) for w in words]
+    specs = [("word", w) for w in words] + [("corpus", c) for c in CORPUS]
     # ---- B. random histories up to 25 operations, all field types, 0..8 rows
     n_rand = 100 if ctx.quick() else 1200
     specs += [("random", i, rng.getrandbits(48), 25, False) for i in range(n_rand)]
@@ -912,7 +949,8 @@ def run(ctx):
     for h in hs:
         for k, n in h["counts"].items():
             ctx.count(k, n)
-    ctx.log(f"histories run on midgard: {len(hs)} ({len(words)} words of length {L}, {len(hs) - len(words)} random)")
+    ctx.log(f"histories run on midgard: {len(hs)} ({len(words)} words of length {L}, {len(CORPUS)} corpus, "
+            f"{len(hs) - len(words) - len(CORPUS)} random)")
 
     # ---- evaluate in Coq (shards of about 160 kB: ~250 MB of memory per coqc); the words share the steps that build the base dataset
     nbase = len(base_schema_small()) + 1
@@ -959,6 +997,10 @@ def run(ctx):
         if v == 0:
             continue
         cls, step = v % 16, v // 16
+        if cls == 15:
+            # the model's precondition for extend (congruent sharing) does not hold: not judged further
+            ctx.count("outside_model_domain:incongruent_sharing")
+            continue
         at = [s for s in h["summaries"] if s.get("step") == step]
         oracle = [b for s in at if "fields" in s for b in rect_oracle(s)][:6]
         rep = dict(kind="history", label=h["label"], deviating_step=step, verdict_class=cls,
